@@ -272,9 +272,10 @@ PROPS["C20"] = dict(
     native="c20",
     level="other",
     trusted=["A-py-1", "A-solver", "A-pyvc"],
-    level_text="Mixed. PROVED: the WSGI body relay ensure_next yields exactly the inner application's items, each once and in "
-               "order, for re-iterable (list/tuple) and one-shot (generator) bodies of any length, and an empty body stays "
-               "empty; Headers.__init__ keeps every header name that occurs once with its value (names occurring several times "
+    level_text="Mixed. PROVED: the bytes produced by the WSGI body relay ensure_next concatenate to exactly the inner "
+               "application's body (rest_from(0), the concatenation of all its chunks, defined by recursion and used through "
+               "ground instances only), for re-iterable (list/tuple) and one-shot (generator) bodies of any length, including "
+               "empty bodies and empty leading chunks; Headers.__init__ keeps every header name that occurs once with its value (names occurring several times "
                "are folded - the known finding); the ASGI StreamingResponse.__call__ that re-emits the relayed body is legal at "
                "every emission (from C05). BOUNDED (labelled): capture of status/headers, CachedStream, decorator/middleware "
                "wrappers and whole identity stacks of depth 0..3 over every response class and raw applications are compared "
@@ -282,7 +283,7 @@ PROPS["C20"] = dict(
     level_note="Trusted: the nested generator is run to completion (A-gen-eager); SpooledTemporaryFile returns what was written "
                "(A-spool-1, bounded only). Known finding (open): NextResponse stores the inner headers in a mapping, so "
                "header names that occur several times (e.g. two Set-Cookie lines) arrive folded into one comma-joined line.",
-    technique="deductive verification: relay contract over an abstract (re-)iterable with ghost output list, SMT; bounded differential run of identity stacks",
+    technique="deductive verification: relay contract over an abstract (re-)iterable with ghost output bytes, SMT; bounded differential run of identity stacks",
     explanation="proved: ensure_next relay, Headers.__init__ single-occurrence clause, streaming re-emission legality; bounded: "
                 "status/header capture, ASGI CachedStream, decorator/middleware stacks.",
 )
@@ -338,7 +339,7 @@ PROPS["C19"] = dict(
 
 PROPS["C18"] = dict(
     modules=["common", "c18"],
-    contracts=["URL._build_url"],
+    contracts=["URL._build_url", "URL.replace"],
     refute={"quick": [2], "thorough": [1, 2, 3]},
     native="c18",
     level="other",
@@ -346,15 +347,22 @@ PROPS["C18"] = dict(
     level_text="Mixed. PROVED (z3/cvc5 strings, all 50 paths): URL._build_url returns scheme://<Host header><path> when a Host "
                "header is given, else <path> without a server, else scheme://host[:port]<path> with the port elided iff it is "
                "the scheme's default or None, and appends '?'+query iff the query is non-empty; KeyError only for an unknown "
-               "scheme without Host header. BOUNDED (labelled): that the environ and the scope construction give the same "
-               "URL with exactly the request's components, component-wise replace on named/IPv4/IPv6 hosts with user, "
-               "password and port (observed through urlsplit - stdlib), the query helpers and the password masking of repr "
-               "are run over an enumerated grid.",
-    level_note="Trusted: bytes.decode() as utf8_decode/utf8_ok (uninterpreted); the observable components come from "
-               "urllib.parse.urlsplit (A-url-1), so the replace clauses are statements about stdlib behaviour and are only "
-               "checked bounded; the server's environ<->scope mapping (A-wsgi-2).",
-    technique="deductive verification: exact string contract of the URL builder over all branch combinations, SMT strings; bounded grid for construction parity and component-wise replace",
-    explanation="proved: _build_url string construction; bounded: environ/scope parity, replace, query helpers, repr masking.",
+               "scheme without Host header.  URL.replace (all 95 paths over every combination of given / absent / None components, "
+               "Optionals with symbolic None flags): the new URL is geturl() of the five split fields where scheme, path, "
+               "query and fragment are the given value or the old one, and the authority is re-assembled as "
+               "[user[:password]@]host[:port] from the given-or-old user, password and port and - unless a hostname is given "
+               "- the old host, i.e. the text after the LAST '@' without a trailing :port (IP literals in brackets kept whole); "
+               "IndexError only for an empty host. BOUNDED (labelled): that the environ and the scope construction give the "
+               "same URL with exactly the request's components, replace observed through urlsplit on named/IPv4/IPv6 hosts "
+               "with user, password (incl. a literal '@') and port, the query helpers and the password masking of repr are "
+               "run over an enumerated grid.",
+    level_note="Trusted: bytes.decode() as utf8_decode/utf8_ok (uninterpreted); SplitResult is abstract in the replace "
+               "contract: _replace is a field-wise copy, geturl an uninterpreted function of the five fields (A-urlsplit-2), "
+               "and username/password are tied to netloc by the input invariant 'the text before the last @ is user[:password]' "
+               "(A-urlsplit, stated as precondition); that urlsplit parses the re-assembled authority back into the same "
+               "components is stdlib behaviour, checked bounded only (A-url-1); the server's environ<->scope mapping (A-wsgi-2).",
+    technique="deductive verification: exact string contracts of the URL builder and of component-wise replace over all branch combinations, SMT strings (z3/cvc5 raced); bounded grid for construction parity and urlsplit round trips",
+    explanation="proved: _build_url string construction, replace re-assembly of the authority; bounded: environ/scope parity, urlsplit round trip of replace, query helpers, repr masking.",
 )
 
 PROPS["C07"] = dict(
